@@ -197,6 +197,24 @@ func (c *reqScn) step(st string) {
 			err := appSend(s, m, fn)
 			return []interface{}{"r", err}
 		})
+	case "sendb":
+		// the byte-slice API: Send copies - the buffer stays the caller's, who fills it with something else as soon as
+		// Send has returned; what is retransmitted later is still the request as it was sent
+		i := ci(arg(1))
+		c.nmsg++
+		tag := fmt.Sprintf("m%d", c.nmsg)
+		buf := []byte(tag + "|" + strings.Repeat("x", c.nmsg%7*11))
+		var fn func([]byte) error = c.sock.Send
+		if i > 0 {
+			fn = c.ctxs[i].Send
+		}
+		s.Call(c.thread(), "send", c.cname(i), []interface{}{"tag", tag}, func() []interface{} {
+			err := fn(buf)
+			for k := range buf {
+				buf[k] = 'Z'
+			}
+			return []interface{}{"r", err}
+		})
 	case "recv":
 		i := ci(arg(1))
 		fn := c.recvOn(i)
@@ -422,6 +440,9 @@ func reqScripted() []reqCfg {
 		// a Send that is waiting for a connection while a Recv on the same context runs into its deadline: the request
 		// is given up, and the Send comes back too - it does not wait for ever for a dispatch that cannot come any more
 		{Opts: []reqCtxOpt{{Retry: 5 * sec, RecvExp: 3 * sec}}, Steps: []string{"send c0", "recv c0", "adv 2.999999s", "adv 1us", "conn", "send c0", "recv c0", "reply p1 cur c0"}},
+		// requests sent through the byte-slice API from buffers the caller reuses at once: retransmissions (retry time,
+		// connection lost) carry the bytes that were sent
+		{Opts: []reqCtxOpt{d, d}, Steps: []string{"conngated", "sendb c0", "sendb c1", "recv c0", "recv c1", "release p1", "release p1", "adv 5s", "release p1", "release p1", "conn", "drop p1", "reply p2 cur c0", "reply p2 cur c1"}},
 		// context close with a pending receive; socket close with pending calls
 		{Opts: []reqCtxOpt{d, d}, Steps: []string{"conn", "send c1", "recv c1", "cclose c1", "send c1", "send c0", "recv c0"}},
 	}
@@ -474,6 +495,9 @@ func reqRandom(rng *rand.Rand) reqCfg {
 		case "conn", "conngated":
 			np++
 		case "send", "recv":
+			if o == "send" && rng.Intn(4) == 0 {
+				o = "sendb"
+			}
 			o += " " + cx
 		case "cclose":
 			o += fmt.Sprintf(" c%d", 1+rng.Intn(nctx-1))
